@@ -130,6 +130,13 @@ def register(c, rnd, s, lim, idx):
             ops.append({"c": "setraw", "i": 7, "v": I(5)})
             ops.append({"c": "reg", "i": idx, "s": s, "lim": lim})
             ops.append({"c": "regbatch", "i": 7, "ids": [[I(12), I(2)]], "rem": [7]})
+    elif h == "big-batch":
+        # registered inside ONE batch of 2 500 leaves (long enough for any chunked write path of the storage layer)
+        n = 2500
+        st = max(0, min(idx - 1200, BIG - n))
+        ids = [[I(100000 + k), I(3)] for k in range(n)]
+        ids[idx - st] = [s, lim]
+        ops.append({"c": "regrange", "i": st, "ids": ids})
     elif h == "reopen":
         # persistent location (the reset line asks for it): registered, then the node restarts
         ops.append({"c": "reg", "i": idx, "s": s, "lim": lim})
@@ -232,7 +239,8 @@ def tamper_ops(name, t, siglen):
         post = [{"c": "RESTORE"}]
     if kind == "roots":
         base["roots"] = {"empty": [], "cur": ["cur"], "other": ["rnd"], "other+cur": ["rnd", "cur"], "stale": ["msg"],
-                         "zero": ["zero"], "zeros": ["zero"] * 5, "zero+cur": ["zero", "cur"]}[roots]
+                         "zero": ["zero"], "zeros": ["zero"] * 5, "zero+cur": ["zero", "cur"],
+                         "straddle1": ["straddle1"], "straddle8": ["straddle8"], "straddle16": ["straddle16"], "straddle31": ["straddle31"]}[roots]
     if tree in ("member-deleted", "restarted-member-deleted") and (kind == "stateful" or (kind == "roots" and roots in ("cur", "zero+cur", "other+cur"))):
         base["must"] = "reject"       # the current root cannot be the message's any more
     return pre + [base] + post
